@@ -186,7 +186,8 @@ func checkC16(c *Check) {
 			c.Tables["cose_reserved_labels_on_sign"] = reserved
 			c.add("O-C16.4", "COSE reserved labels contain the reader's system labels", "the labels refused as extended attributes on signing include every system label the reader hides (7)", len(missing) == 0 && len(sys) >= 7, "", "not refused on signing: "+strings.Join(missing, ","))
 			t := coseNames(c)
-			c.mustPass(pg, "O-C16.3", "COSE: scheme is in the scheme->label table", "building the protected header", ok, A("+Has("+t.labelMap+", "+req+".SigningScheme)"))
+			// (looked up in the table, or compared with the two scheme names one by one)
+			c.mustPass(pg, "O-C16.3", "COSE: scheme is in the scheme->label table", "building the protected header", ok, AnyOf(A("+Has("+t.labelMap+", "+req+".SigningScheme)"), A("+Eq("+schemeX+", "+req+".SigningScheme)"), A("+Eq("+schemeSA+", "+req+".SigningScheme)")))
 			c.mustPass(pg, "O-C16.3", "COSE: signing time encodes", "building the protected header", ok, AG("+IsNil((github.com/fxamacker/cbor/v2.EncMode).Marshal(*, "+req+".SigningTime)#1)"))
 			c.mustPass(pg, "O-C16.3", "COSE: expiry encodes when present", "building the protected header", ok, AnyOf(A("+TZero("+req+".Expiry)"), AG("+IsNil((github.com/fxamacker/cbor/v2.EncMode).Marshal(*, "+req+".Expiry)#1)")))
 		}
